@@ -1,0 +1,6 @@
+//go:build !verif
+
+package types
+
+// verifYield is a no-op outside verification builds (see verif_on.go).
+func verifYield(EventName) {}
